@@ -144,5 +144,9 @@ def World.ofTree (nodes : List ((Bool × List Str) × Bool)) (orders : List ((Bo
       | some r => r
       | none => .error .other }
 
+/-- the same world after the paths `gone` (as keys) have been removed from the file system -/
+def World.without (w : World) (gone : List (Bool × List Str)) : World :=
+  { w with «exists» := fun p => !gone.contains (key p) && w.exists p }
+
 end ComposeDir
 end PM
